@@ -49,6 +49,104 @@ def _pairs(run: Run, model: PyModel, fi) -> list[tuple[ast.expr, ast.expr, ast.A
 SCENARIOS = [("SRCo", "DSTz", "SRCo", "DSTz"), ("SRC.zo", "DST.zo", "SRC", "DST"), ("sub/SRCz", "sub2/DSTo", "sub/SRCz", "sub2/DSTo"), ("pa.ge", "qu.ux", "pa.ge", "qu.ux")]
 
 
+def concrete_rename(run: Run, model: PyModel) -> int:
+    """Abstract runs of run_file_rename over a virtual notes directory with CONCRETE page texts (files the run writes or renames are read back as such; nothing touches a
+    disk; `re` on constants is a library fact): afterwards every *.zo / *.zot / *.zoq file holds its old text with exactly the links [[A]] and [[A#x]] retargeted to B --
+    look-alikes ([[Ax]], [[xA]], [[A/sub]], [[A.zot]], [[A-y]], [A], links to B) untouched, other files not visited -- and the page itself has moved.  This also decides
+    rewrites done with regular expressions, which the replacement-chain evaluation cannot."""
+    import fnmatch
+
+    from ..absint import Interp, State
+    from ..absval import HObj, Opaque
+    from ..virtual import World, vpath
+
+    fi = model.func(F_RENAME)
+    n = 0
+    for src, dest, S, D in SCENARIOS:
+        def texts(name):
+            return (f"# page [[{name}]]\n\n- see [[{name}]] and [[{name}#anchor]] and ([[{name}]]), [[{name}#a b]].\n"
+                    f"- look-alikes [[{name}x]] [[x{name}]] [[{name}/sub]] [[{name}.zot]] [[{name}-y]] [[{name} x]] [{name}] [[ {name}]] [#{name}] {name}\n")
+
+        other = texts(S) + f"- destination links [[{D}]] [[{D}#a]]\n"
+        sfile, dfile = (src if "." in src else src + ".zo"), (dest if "." in dest else dest + ".zo")
+        files = {f"/Z/{sfile}": f"# the page itself links to [[{S}]]\n", "/Z/other.zo": other, "/Z/sub/deep/t.zot": texts(S), "/Z/zoq/q.zoq": f"# W [[{S}#x]]\n", "/Z/readme.txt": texts(S),
+                 "/Z/plain.zo": "# nothing to retarget here\n- [[unrelated]]\n"}
+
+        def expect(t):
+            return t.replace(f"[[{S}]]", f"[[{D}]]").replace(f"[[{S}#", f"[[{D}#")
+
+        W = World(model, files={}, old_map=None, indexed=set(), errors=set(), whitelist=[], contents=dict(files), missing="all-but-contents")
+        probes = W.probes()
+        base_m = probes["method:*"]
+
+        def current(st):
+            cur = dict(files)
+            cur.update(st.meta.get("vfiles", {}))
+            for g in st.meta.get("vgone", ()):
+                cur.pop(g, None)
+            return cur
+
+        def meth(I, recv, name, args, kwargs, st, node):
+            if recv.cls == "vpath" and name in ("rename", "replace") and args and isinstance(args[0], Opaque) and args[0].cls == "vpath":
+                cur = current(st)
+                if recv.tag not in cur:
+                    from ..absint import Raised as _R
+                    return [(_R("FileNotFoundError", node, recv.tag), st)]
+                st.trace.append(("rename", recv.tag, args[0].tag))
+                st.meta["vfiles"] = {**st.meta.get("vfiles", {}), args[0].tag: cur[recv.tag]}
+                st.meta["vgone"] = tuple(set(st.meta.get("vgone", ())) | {recv.tag})
+                return [(args[0], st)]
+            if recv.cls == "vpath" and name in ("rglob", "glob") and args and isinstance(args[0], str):
+                cur = current(st)
+                pre = recv.tag.rstrip("/") + "/"
+                hits = [p for p in sorted(cur) if p.startswith(pre) and fnmatch.fnmatch(p.rsplit("/", 1)[-1], args[0]) and (name == "rglob" or "/" not in p[len(pre):])]
+                return [(st.alloc(HObj("list", items=[vpath(p) for p in hits])), st)]
+            if recv.cls == "vpath" and name in ("read_text", "exists", "is_file") and recv.tag in st.meta.get("vgone", ()):
+                if name != "read_text":
+                    return [(False, st)]
+                from ..absint import Raised as _R
+                return [(_R("FileNotFoundError", node, recv.tag), st)]
+            return base_m(I, recv, name, args, kwargs, st, node)
+
+        probes["method:*"] = meth
+        I = Interp(model, probes=probes, max_states=3000)
+        st = State()
+        cfg = st.alloc(HObj("obj", cls="zorg.app.config.FileRenameConfig", fields=dict(src_name=src, dest_name=dest, zettel_dir=vpath("/Z"), command="rename", verbose=0)))
+        try:
+            res = I.run_function(F_RENAME, [cfg], st=st)
+        except Exception as e:  # noqa: BLE001
+            run.undecided("C14.R1", "run_file_rename", f"rename {src} -> {dest} on concrete pages: cannot interpret: {type(e).__name__}: {str(e)[:100]}")
+            continue
+        if len(res) != 1:
+            run.undecided("C14.R1", "run_file_rename", f"rename {src} -> {dest} on concrete pages: {len(res)} abstract outcomes")
+            continue
+        v, s = res[0]
+        if isinstance(v, Raised) or s.imprecise:
+            run.undecided("C14.R1", "run_file_rename", f"rename {src} -> {dest} on concrete pages: " + (f"raises {v.exc}" if isinstance(v, Raised) else "; ".join(s.imprecise[:2])))
+            continue
+        n += 1
+        cur = current(s)
+        want = {(f"/Z/{dfile}" if p == f"/Z/{sfile}" else p): (expect(t) if p.endswith((".zo", ".zot", ".zoq")) else t) for p, t in files.items()}
+        moved = f"/Z/{dfile}" in cur and f"/Z/{sfile}" not in cur
+        run.check("C14.R3", f"{src} -> {dest}: the page file moves from {sfile} to {dfile}", moved, "run_file_rename", f"files afterwards: {sorted(cur)}"[:200],
+                  f"after renaming {src!r} to {dest!r} the directory holds {sorted(cur)}: the page did not move from {sfile} to {dfile}", file=FILE, node=fi.node)
+        for pth in sorted(want):
+            got = cur.get(pth)
+            if got == want[pth]:
+                run.proved("C14.R1" if pth.endswith((".zo", ".zot", ".zoq")) else "C14.R2", f"{src} -> {dest}: {pth} holds exactly its old text with [[{S}]] / [[{S}# retargeted")
+                continue
+            d = "the file is missing"
+            if isinstance(got, str):
+                gl, wl = got.split("\n"), want[pth].split("\n")
+                k = next((i for i in range(min(len(gl), len(wl))) if gl[i] != wl[i]), min(len(gl), len(wl)))
+                d = f"line {k + 1} is {gl[k]!r}, expected {wl[k]!r}" if k < min(len(gl), len(wl)) else f"{len(gl)} lines, expected {len(wl)}"
+            rid = "C14.R1" if pth.endswith((".zo", ".zot", ".zoq")) else "C14.R2"
+            run.refuted(rid, "run_file_rename", f"{src} -> {dest}: {pth}: {d}"[:200],
+                        f"after renaming {src!r} to {dest!r}, {pth}: {d}: links to the page are left behind, or links to OTHER pages whose names merely contain / extend {S!r} "
+                        f"(e.g. [[{S}/sub]], [[{S}.zot]], [[{S}-y]]) are rewritten" + (" -- a file outside *.zo / *.zot / *.zoq is touched" if rid == "C14.R2" else ""), file=FILE, node=fi.node)
+    return n
+
+
 def check(run: Run) -> None:
     model = PyModel(run.repo)
     run.rule("C14.R1", "abstract run of the rename on generic names (with / without .zo, in sub-directories, ending in o / z, containing a dot): the text written back is the text read from the "
@@ -79,8 +177,9 @@ def check(run: Run) -> None:
             for bad in affix_strip_misuse(f.node):
                 run.refuted("C14.R1", f.name, bad, f"`{ast.unparse(bad)}` strips a character set, not the suffix: page names ending in those characters are mangled "
                             "and links are rewritten from/to the wrong name", file=f.file, node=bad)
+    run.floor("renames evaluated on concrete pages", concrete_rename(run, model), len(SCENARIOS))
     if uses_regex:
-        run.undecided("C14.R1", "run_file_rename", "link rewriting through regular expressions is outside what the replacement-chain evaluation decides; only the missing-re.escape rule is decided")
+        # the replacement-chain evaluation below is about str.replace chains; a regex rewrite is decided by the concrete-page runs above (and the missing-re.escape rule)
         return
 
     # ---- R1 / R2b / R3: abstract run
